@@ -225,6 +225,171 @@ impl Check for Probes {
     }
 }
 
+/* ------------------------------ repeated names inside one pattern ------------------------------ */
+
+/// (c) "pattern components bind left to right": when a name occurs more than once in one pattern, an
+/// occurrence in the scope of the pattern refers to the LAST component with that name (equivalently:
+/// renaming the earlier components to fresh names changes nothing). Every pattern shape of a small
+/// catalogue x every assignment of names from {x, y} to its leaves x every binder construct,
+/// including `that` contributions; the observation returns `x`.
+#[derive(Clone, Debug)]
+enum Shape {
+    Leaf,
+    Tuple(Vec<Shape>),
+    /// `(shape; leaf)`: the leaf aliases the whole bindee
+    Alias(Box<Shape>),
+    Named(&'static str, Box<Shape>),
+    Ctor(Vec<Shape>),
+}
+pub struct PatternShadowing {
+    cases: Vec<(usize, Vec<usize>, usize)>,
+}
+fn shapes() -> Vec<Shape> {
+    use Shape::*;
+    vec![
+        Tuple(vec![Leaf, Leaf]),
+        Tuple(vec![Leaf, Leaf, Leaf]),
+        Tuple(vec![Leaf, Tuple(vec![Leaf, Leaf])]),
+        Tuple(vec![Tuple(vec![Leaf, Leaf]), Leaf]),
+        Alias(Box::new(Tuple(vec![Leaf, Leaf]))),
+        Tuple(vec![Named("a", Box::new(Leaf)), Named("b", Box::new(Leaf))]),
+        Ctor(vec![Leaf, Leaf]),
+        Tuple(vec![Leaf, Ctor(vec![Leaf, Leaf])]),
+        Tuple(vec![Alias(Box::new(Tuple(vec![Leaf, Leaf]))), Leaf]),
+    ]
+}
+const PS_BINDERS: [&str; 10] = ["let-in", "let-that", "do", "fn", "match", "def-that", "def-in", "comatch-arg", "genbind-param", "that-used-before"];
+fn leaves(s: &Shape) -> usize {
+    match s {
+        | Shape::Leaf => 1,
+        | Shape::Tuple(cs) | Shape::Ctor(cs) => cs.iter().map(leaves).sum(),
+        | Shape::Alias(inner) => leaves(inner) + 1,
+        | Shape::Named(_, inner) => leaves(inner),
+    }
+}
+/// (pattern text, value text, rendering of the value) with leaf k named names[k] and valued 10+k
+fn build(s: &Shape, names: &[&str], next: &mut usize, bound: &mut Vec<(String, String)>) -> (String, String, String) {
+    match s {
+        | Shape::Leaf => {
+            let k = *next;
+            *next += 1;
+            let v = format!("{}", 10 + k);
+            let shown = format!("Integer({})", 10 + k);
+            bound.push((names[k].to_string(), shown.clone()));
+            (names[k].to_string(), v, shown)
+        }
+        | Shape::Tuple(cs) | Shape::Ctor(cs) => {
+            let parts: Vec<(String, String, String)> = cs.iter().map(|c| build(c, names, next, bound)).collect();
+            let pats: Vec<&str> = parts.iter().map(|p| p.0.as_str()).collect();
+            let vals: Vec<&str> = parts.iter().map(|p| p.1.as_str()).collect();
+            // right-nested products print flat
+            let mut shown: Vec<String> = parts.iter().map(|p| p.2.clone()).collect();
+            if matches!(cs.last(), Some(Shape::Tuple(_))) {
+                let last = shown.pop().unwrap();
+                shown.push(last[1..last.len() - 1].to_string());
+            }
+            if matches!(s, Shape::Ctor(_)) {
+                (format!("+K({})", pats.join(", ")), format!("(+K({}) : KK)", vals.join(", ")), format!("+K(({}))", shown.join(",")))
+            } else {
+                (format!("({})", pats.join(", ")), format!("({})", vals.join(", ")), format!("({})", shown.join(",")))
+            }
+        }
+        | Shape::Alias(inner) => {
+            let (p, v, shown) = build(inner, names, next, bound);
+            let k = *next;
+            *next += 1;
+            bound.push((names[k].to_string(), shown.clone()));
+            (format!("({p}; {})", names[k]), v, shown)
+        }
+        | Shape::Named(l, inner) => {
+            let (p, v, shown) = build(inner, names, next, bound);
+            (format!("({l} = {p})"), format!("({l} = {v})"), shown)
+        }
+    }
+}
+impl PatternShadowing {
+    pub fn new() -> Self {
+        let mut cases = vec![];
+        for (si, s) in shapes().iter().enumerate() {
+            let n = leaves(s);
+            for code in 0..2usize.pow(n as u32) {
+                let names: Vec<usize> = (0..n).map(|k| code >> k & 1).collect();
+                // the observation returns x: some leaf must be named x
+                if !names.contains(&0) {
+                    continue;
+                }
+                for b in 0..PS_BINDERS.len() {
+                    cases.push((si, names.clone(), b));
+                }
+            }
+        }
+        PatternShadowing { cases }
+    }
+    fn text(&self, i: usize) -> (String, String) {
+        let (si, names, b) = &self.cases[i];
+        let shape = &shapes()[*si];
+        let names: Vec<&str> = names.iter().map(|k| ["x", "y"][*k]).collect();
+        let mut bound = vec![];
+        let (pat, val, _) = build(shape, &names, &mut 0, &mut bound);
+        let expected = bound.iter().rev().find(|(n, _)| n == "x").map(|(_, v)| v.clone()).unwrap();
+        let body = match PS_BINDERS[*b] {
+            | "let-in" => format!("let {pat} = {val} in ret x"),
+            | "let-that" => format!("begin let {pat} = {val} that ret x end"),
+            | "do" => format!("do {pat} <- ret {val}; ret x"),
+            | "fn" => format!("let f = {{ fn {pat} => ret x }} in ! f {val}"),
+            | "match" => format!("match {val} | {pat} => ret x end"),
+            | "def-that" => format!("begin def {pat} = {val} that ret x end"),
+            | "def-in" => format!("def {pat} = {val} in ret x"),
+            | "comatch-arg" => format!("let o = {{ comatch | .go {pat} => ret x end }} in ! o .go {val}"),
+            | "genbind-param" => format!("let ! f {pat} = ret x in ! f {val}"),
+            | _ => format!("begin let r = x that let {pat} = {val} that ret r end"),
+        };
+        (format!("begin\n  let Ret = @(intrinsic(ret)) that\n  let Thk = @(intrinsic(thk)) that\n  let Int64 = @(intrinsic(i64)) that\n  let KK = data | +K : Int64 * Int64 end that\n  {body}\nend\n"), expected)
+    }
+}
+impl Check for PatternShadowing {
+    fn property(&self) -> &'static str {
+        "C07"
+    }
+    fn name(&self) -> String {
+        "c07-pattern-shadowing".into()
+    }
+    fn len(&self) -> usize {
+        self.cases.len()
+    }
+    fn describe(&self, i: usize) -> String {
+        let (t, e) = self.text(i);
+        format!("expect {e}\n{t}")
+    }
+    fn rule(&self) -> String {
+        format!("{} programs = 9 pattern shapes (pairs, triples, nested left / right, alias of a tuple, named components, constructor arguments, constructor inside a tuple, alias inside a tuple) x every assignment of the names x / y to the leaves with at least one x x 10 binder constructs (let-in, let-that, do, fn, match arm, def-that, def-in, comatch argument, function-definition parameter, a `that` pattern used before its text); reference: components bind left to right, so x denotes the last leaf named x; oracle: the program is accepted and returns that leaf's value (binder constructs that reject the pattern shape outright are counted, not judged); non-trivial = programs where x occurs at least twice", self.cases.len())
+    }
+    fn run(&mut self, i: usize) -> CaseResult {
+        let scratch = Scratch::new("c07ps");
+        let (text, expected) = self.text(i);
+        let (_, names, b) = &self.cases[i];
+        let dup = names.iter().filter(|k| **k == 0).count() >= 2;
+        let path = scratch.write("main.zydeco", &text);
+        let mut r = CaseResult::ok("pattern").key(i as u64).nontrivial(dup);
+        match guarded(|| {
+            let s = Subject::analyze(&path);
+            let v = s.verdict();
+            let run = if v.accepted() { Some(s.run(b"", &[], 2000)) } else { None };
+            (v, run)
+        }) {
+            | Err(_) => r = r.count("front_end_panics_counted_by_C10", 1),
+            | Ok((v, None)) => r = r.count(&format!("not_accepted_{}", v.tag()), 1),
+            | Ok((_, Some(run))) => match &run.end {
+                | RunEnd::Ret(got) if *got == expected => r = r.count("agreements", 1),
+                | other => {
+                    r = r.violation(format!("a repeated name in one pattern does not refer to its last component ({} binder)", PS_BINDERS[*b]), format!("expected {expected}, got {:?}\n{text}", other));
+                }
+            },
+        }
+        r
+    }
+}
+
 pub fn checks(tier: Tier) -> Vec<Box<dyn Check>> {
-    vec![Box::new(Probes::new()), Box::new(Renaming::new(tier))]
+    vec![Box::new(Probes::new()), Box::new(Renaming::new(tier)), Box::new(PatternShadowing::new())]
 }
